@@ -578,7 +578,10 @@ bool Parser::parse_patch_header(Patch& patch, PatchHeaderInfo& header_info, int 
                 break;
             }
 
-            if (parse_unified_range(hunk, line)) {
+            // NOTE: only a line which is a range in full may have a say in what the first hunk looks like.
+            Hunk unified_hunk;
+            if (parse_unified_range(unified_hunk, line)) {
+                hunk = unified_hunk;
                 this_line_looks_like = Format::Unified;
                 header_info.lines_till_first_hunk = lines;
                 continue;
@@ -597,7 +600,9 @@ bool Parser::parse_patch_header(Patch& patch, PatchHeaderInfo& header_info, int 
             // If we parse a normal range, it's _probably_ a normal line, and the next line is the beginning of
             // a hunk. However, just in case we are wrong and it's just part of a commit message or something -
             // leave a marker, and keep going to valid that we can find a '<' or '>' marker next.
-            if (parse_normal_range(hunk, line)) {
+            Hunk normal_hunk;
+            if (parse_normal_range(normal_hunk, line)) {
+                hunk = normal_hunk;
                 this_line_looks_like = Format::Normal;
                 header_info.lines_till_first_hunk = lines;
                 continue;
